@@ -9,6 +9,8 @@ mod instruction;
 mod instruction_reader;
 mod module_loader;
 mod op;
+#[cfg(koto_verif)]
+pub mod verif;
 
 pub use crate::{
     chunk::{Chunk, DebugInfo},
